@@ -21,7 +21,7 @@ import Verif.Model.AcmeConc
   (challenge / authorization / order) of the request fails; `!i`: the write of the account's order index
   fails; `!k`: the write of the Wire token fails
   A line `conc=reread|original|claim ths=<f|p>.<f|p>… sched=<i>.<i>…` runs the interleaving model
-  (Verif.AcmeConc) instead: output `conc<certificates>:<stored status after every step>`.
+  (Verif.AcmeConc) instead: output `conc<certificates>:<stored status after every step>=<status once all requests have returned>`.
   Output: `T<total certificates>:<step>|<step>|…`, one step per op:
     `<resp>/<order statuses>/<certificates per order>/<authz statuses>/<challenge statuses>`
   statuses are letters p r v i in id order (upper case + key number: the authorization carries that key's fingerprint),
@@ -122,7 +122,24 @@ def dump (s : Store) : String :=
 def cstS : AcmeConc.CStatus → String
   | .ready => "r" | .processing => "c" | .valid => "v" | .invalid => "i"
 
+def chS : AcmeConc.ChSt → String
+  | .pending => "p" | .valid => "v" | .invalid => "i"
+
+/-- `conc=chal ths=<s|t|j>.… sched=…`: simultaneous responses to one pending challenge -/
+def evalConcChal (fs : List String) : Option String := do
+  let thsF ← fs.find? (·.startsWith "ths=")
+  let ths ← ((thsF.drop 4).toString.splitOn ".").mapM fun t =>
+    match t with
+    | "s" => some ({ verdict := .ok } : AcmeConc.ChTh) | "t" => some { verdict := .retry }
+    | "j" => some { verdict := .reject } | _ => none
+  let scF ← fs.find? (·.startsWith "sched=")
+  let sched ← ((scF.drop 6).toString.splitOn ".").mapM nat?
+  let w : AcmeConc.ChW := { ths := ths }
+  let full := sched ++ (List.range ths.length).flatMap fun i => List.replicate 4 i
+  pure s!"cconc:{String.join ((AcmeConc.chTrace w sched).map chS)}={chS (AcmeConc.chExec w full).cur.status}"
+
 def evalConc (fs : List String) (mode : String) : Option String := do
+  if mode = "chal" then return ← evalConcChal fs
   let m ← match mode with
     | "reread" => some AcmeConc.Mode.reread | "original" => some .original | "claim" => some .claim
     | _ => none
@@ -133,7 +150,10 @@ def evalConc (fs : List String) (mode : String) : Option String := do
   let scF ← fs.find? (·.startsWith "sched=")
   let sched ← ((scF.drop 6).toString.splitOn ".").mapM nat?
   let w : AcmeConc.W := { ths := ths }
-  pure s!"conc{(AcmeConc.exec m w sched).g.certs}:{String.join ((AcmeConc.trace m w sched).map cstS)}"
+  -- unfinished requests run to completion in thread order after the schedule, as in the harness
+  let full := sched ++ (List.range ths.length).flatMap fun i => List.replicate 5 i
+  let fin := (AcmeConc.exec m w full).g
+  pure s!"conc{fin.certs}:{String.join ((AcmeConc.trace m w sched).map cstS)}={cstS fin.cur.status}"
 
 /-- `aops=` lines: histories with accounts (stage `router`): `A` new account, `x:<acct>` deactivate,
     `k:<acct>` key-change, any other token is a request of the account named in it -/
